@@ -13,7 +13,7 @@ import z3
 from . import loader, spec
 from .interp import (Interp, Ctx, Shared, PyRaise, Restart, Infeasible, CannotConvert)
 from .values import (Sym, PObj, PList, PDict, PSet, DictView, JsonText, BoundMethod, BuiltinMethod, Closure, Foreign,
-                     Opaque, Unsupported, V, mk, kind_of, is_sym, z3_of, decode_z3_string)
+                     Opaque, Unsupported, LockVal, AnyVal, V, mk, kind_of, is_sym, z3_of, decode_z3_string)
 from .spec import WILD, Pre, Post, SpecError
 
 
@@ -90,6 +90,29 @@ def snapshot(v, memo=None):
         memo = {}
     if id(v) in memo:
         return memo[id(v)]
+    if type(v).__name__ == 'NXGraph':
+        from .nxmodel import NXGraph
+        g = NXGraph()
+        memo[id(v)] = g
+        g.node = snapshot(v.node, memo)
+        g.edge = snapshot(v.edge, memo)
+        g.adj_order = {k: list(x) for k, x in v.adj_order.items()}
+        g.version = v.version
+        return g
+    if type(v).__name__ == 'PDefaultDict':
+        from .nxmodel import PDefaultDict
+        d = PDefaultDict(v.factory)
+        memo[id(v)] = d
+        for k, (g, x) in v.e.items():
+            d.e[k] = [g, snapshot(x, memo)]
+        return d
+    if isinstance(v, LockVal):
+        import copy as _copy
+        lk = _copy.copy(v)
+        lk.errors = list(v.errors)
+        lk.trace = list(v.trace)
+        memo[id(v)] = lk
+        return lk
     if isinstance(v, PObj):
         o = PObj(v.cls)
         memo[id(v)] = o
@@ -137,6 +160,30 @@ def _mentions_opaque(t):
                 return True
         stack.extend(x.children())
     return False
+
+
+class ReplayLock:
+    """threading.Lock stand-in for replays (same acquire/release/locked behaviour, but copyable and never blocking:
+    a second acquire is recorded as the deadlock it would be)"""
+
+    def __init__(self, held=False):
+        self.held = held
+        self.deadlock = False
+
+    def acquire(self, blocking=True, timeout=-1):
+        if self.held:
+            self.deadlock = True
+            raise RuntimeError('deadlock: acquire of a lock that is already held')
+        self.held = True
+        return True
+
+    def release(self):
+        if not self.held:
+            raise RuntimeError('release unlocked lock')
+        self.held = False
+
+    def locked(self):
+        return self.held
 
 
 class Reifier:
@@ -210,6 +257,23 @@ class Reifier:
                 if self.guard(g):
                     o.__dict__[k] = self(x)
             return o
+        if type(v).__name__ == 'NXGraph':
+            from .nxmodel import to_real
+            g = to_real(v, self)
+            self.memo[id(v)] = g
+            return g
+        if type(v).__name__ == 'PDefaultDict':
+            import collections
+            d = collections.defaultdict(v.factory if not hasattr(v.factory, 'node') else None)
+            self.memo[id(v)] = d
+            for k, (g, x) in v.e.items():
+                if self.guard(g):
+                    d[self(k) if isinstance(k, (PObj, Sym)) else k] = self(x)
+            return d
+        if isinstance(v, LockVal):
+            lk = ReplayLock(v.held)
+            self.memo[id(v)] = lk
+            return lk
         if isinstance(v, PList):
             l = []
             self.memo[id(v)] = l
@@ -292,6 +356,21 @@ def deep_eq(a, b, path='', memo=None):
         return '' if a == b else f'{path}: {a!r:.80} vs {b!r:.80}'
     if isinstance(a, BaseException):
         return ''
+    if type(a).__name__ in ('Graph', 'DiGraph') and hasattr(a, 'nodes'):
+        d = deep_eq({n: dict(x) for n, x in a.nodes(data=True)}, {n: dict(x) for n, x in b.nodes(data=True)}, path + '.nodes', memo)
+        if d:
+            return d
+        ea = {frozenset((u, v)): dict(x) for u, v, x in a.edges(data=True)}
+        eb = {frozenset((u, v)): dict(x) for u, v, x in b.edges(data=True)}
+        if set(ea) != set(eb):
+            return f'{path}.edges: {sorted(map(sorted, ea))} vs {sorted(map(sorted, eb))}'
+        for k in ea:
+            d = deep_eq(ea[k], eb[k], f'{path}.edges[{sorted(k)}]', memo)
+            if d:
+                return d
+        return ''
+    if type(a).__name__ in ('lock', 'ReplayLock'):
+        return '' if a.locked() == b.locked() else f'{path}: lock held {a.locked()} vs {b.locked()}'
     if hasattr(a, '__dict__') and not isinstance(a, type):
         return deep_eq(a.__dict__, b.__dict__, path + '.__dict__', memo)
     return '' if a == b else f'{path}: {a!r:.80} vs {b!r:.80}'
